@@ -32,21 +32,21 @@ var (
 	catPool  = []string{"client", "server", "conference", "gateway", "a", "A", "a/", "a!", "ab", "Ψ"}
 	typePool = []string{"pc", "phone", "bot", "im", "text", "web", "p", "p/", "P", ""}
 	langPool = []string{"", "", "en", "el", "de", "en-US", "EN", "e"}
-	namePool = []string{"", "Psi 0.11", "Ψ 0.11", "Exodus 0.9.1", "a<b", "x/y"}
+	namePool = []string{"", "Psi 0.11", "Ψ 0.11", "Exodus 0.9.1", "a<b", "x/y", "100%", "%s %d", "a%20b"}
 	featPool = []string{
 		"http://jabber.org/protocol/caps", "http://jabber.org/protocol/disco#info",
 		"http://jabber.org/protocol/disco#items", "http://jabber.org/protocol/muc",
-		"urn:xmpp:ping", "urn:xmpp:Ping", "jabber:iq:version", "a", "a<", "a<b", "ab", "B",
+		"urn:xmpp:ping", "urn:xmpp:Ping", "jabber:iq:version", "a", "a<", "a<b", "ab", "B", "urn:x:%41", "100%", "%v",
 	}
 	ftPool = []string{
 		"urn:xmpp:dataforms:softwareinfo", "http://jabber.org/network/serverinfo", "urn:xmpp:mam:2",
-		"a", "b", "B", "a<", "a!", "ab", "é",
+		"a", "b", "B", "a<", "a!", "ab", "é", "urn:x:form%20type", "%!s(MISSING)", "50%%",
 	}
 	varPool = []string{
 		"os", "os_version", "software", "software_version", "ip_version", "abuse-addresses",
-		"a", "b", "B", "a<", "ab", "FORM_TYPF", "FORM_TYP", "form_type",
+		"a", "b", "B", "a<", "ab", "FORM_TYPF", "FORM_TYP", "form_type", "abuse%2Daddresses", "%d", "load%",
 	}
-	valPool     = []string{"ipv4", "ipv6", "Mac", "10.5.1", "Psi", "0.11", "<", "a<b", "a", "b", "B", "ab", "Ψ"}
+	valPool     = []string{"ipv4", "ipv6", "Mac", "10.5.1", "Psi", "0.11", "<", "a<b", "a", "b", "B", "ab", "Ψ", "xmpp:a@b?message;subject=Help%20me", "100%", "50%%", "%s", "%!d(string=x)", "%", "%<"}
 	jidPool     = []string{"a@b", "example.net", "x@y/z", "b@a", "A@b"}
 	boolPool    = []string{"true", "false", "0", "1"}
 	multiTypes  = []string{"hidden", "text-multi", "list-multi", "jid-multi"}
